@@ -371,6 +371,39 @@ func runC13(c *core.Ctx, o Options) {
 		c.Check(nLock >= 15, "Z8", "", "locking functions found", token.NoPos, fmt.Sprint(nLock), fmt.Sprintf("only %d functions that take a mutex found", nLock))
 	}
 	c.Explanation += " Z2 also: a select case on a context's Done() in anything that runs on behalf of one accepted connection watches a context derived in Acceptor.serve (or held by a per-connection object), not the acceptor-wide context serve was given — followed through helper parameters to all call sites. Z8: no function returns with a mutex it has taken still locked (every returning path is replayed over the lock operations, deferred unlocks included)."
+	if s2 := newSess(c); s2 != nil {
+		s2.checkCallbacksOutsideStateLock("Z7")
+	}
+	// Z7 (cancel outside the send lock): Send and SendBatch hold DefaultHandler.mu while they wait in sendRaw for room in the queue or
+	// for the handler's context to be cancelled. Whoever cancels that context must therefore not need that mutex (nor Session.mu,
+	// which Session.send holds around the same wait): no call of a stored context.CancelFunc is made with one of them held.
+	{
+		nCancel := 0
+		for _, fn := range libFuncs(c) {
+			an.AllInstrs(fn, func(in ssa.Instruction) {
+				call, ok := in.(*ssa.Call)
+				if !ok || call.Call.IsInvoke() || an.StaticCallee(&call.Call) != nil {
+					return
+				}
+				f, _ := an.LoadedField(call.Call.Value)
+				if f == nil || !an.TypeIs(f.Type(), "context", "CancelFunc") {
+					return
+				}
+				nCancel++
+				held := an.HeldAt(fn, call)
+				bad := ""
+				for _, k := range an.SortedKeys(held) {
+					if strings.HasSuffix(k, ".mu") {
+						bad = k
+					}
+				}
+				c.Check(bad == "", "Z7", an.NameOf(fn), "the stored cancel function is called without the send mutex", call.Pos(), "no mu held at "+an.Render(call.Call.Value)+"()",
+					fmt.Sprintf("%s calls %s() while holding %s: a sender that waits in sendRaw holds that mutex until the context is cancelled, and the cancel now waits for the sender — Stop/Close never return, the sender and every later Send stay blocked", an.NameOf(fn), an.Render(call.Call.Value), bad))
+			})
+		}
+		c.Check(nCancel >= 5, "Z7", "", "calls of stored cancel functions found", token.NoPos, fmt.Sprint(nCancel), fmt.Sprintf("only %d calls of stored context.CancelFunc fields found", nCancel))
+	}
+	c.Explanation += " Z7 also: no stored context.CancelFunc is called while DefaultHandler.mu / Session.mu (held by a sender waiting in sendRaw) is held; the event subscribers and Session.LogonHandler are called with no mutex of the session held."
 	c.RuleMin = map[string]int{"Z1": 5, "Z2": 16, "Z3": 5, "Z4": 6, "Z5": 4, "Z6": 4, "Z7": 4, "Z8": 15}
 	c.MinObl = 45
 }
